@@ -7,7 +7,7 @@ from typing import Callable
 
 replacements = {"!": " not ", "^": " and ", "v": " or "}
 
-pattern = re.compile(r"""'[^']*'|"[^"]*"|\!(?!=)|\^|\bv\b""")
+pattern = re.compile(r"""'(?:\\.|[^'\\])*'|"(?:\\.|[^"\\])*"|\!(?!=)|\^|\bv\b""")
 
 comparison_repr = {
     operator.eq: "==",
